@@ -17,6 +17,7 @@ import (
 	"mellium.im/xmlstream"
 	"mellium.im/xmpp"
 	"mellium.im/xmpp/internal/attr"
+	"mellium.im/xmpp/internal/verifhook"
 	"mellium.im/xmpp/mux"
 	"mellium.im/xmpp/stanza"
 )
@@ -200,6 +201,7 @@ func (h *Handler) HandleMessage(msg stanza.Message, t xmlstream.TokenReadEncoder
 				return nil
 			}
 
+			verifhook.Yield("receipts.handle.send")
 			c <- struct{}{}
 			return nil
 		case "request":
@@ -278,6 +280,7 @@ func (h *Handler) SendMessageElement(ctx context.Context, s *xmpp.Session, paylo
 		return err
 	}
 
+	verifhook.Yield("receipts.send.select")
 	select {
 	case <-c:
 		return nil
